@@ -393,7 +393,7 @@ def _canaries(env: Env) -> list[tuple[dict, str | None]]:
         (mk(attr_imp, 'eqd', tin=3, tout=3), None),
         (mk(sub_dfl, 'absent', tin=0, tout=2), None),
         (mk(sub_dfl, 'absent', tin=0, tout=0), 'rt1_value'),
-        (mk(sub_dfl, 'absent', tin=0, tout=2, x12='diff'), 'rt2_xml'),
+        (mk(sub_dfl, 'absent', tin=0, tout=2, x12='diff'), None),   # accepted: None on optional+default member
         (mk(sub_dfl, 'stripped', tin=7, tout=2, shared=True, eq='na', w2='na', x12='na'), 'fresh'),
         (mk(sub_man_dfl, 'stripped', tin=7, tout=2, shared=True, eq='na', w2='na', x12='na', valid='value'), None),
         (mk(sub_man_dfl, 'stripped', tin=7, tout=2, shared=True, eq='na', w2='na', x12='na', valid='valid'), 'fresh'),
